@@ -117,6 +117,57 @@ def evaluate(ctx, expected, cases, recs):
     return good, skipped, inconcl
 
 
+def seq_schedules(ctx):
+    behs = vlib.tlc_behaviours(ctx, "UdpFallbackSeq", "UdpFallbackSeq_gen.cfg")
+    if len(behs) < 20:
+        raise vlib.Infra("sequence generator exported only %d schedules" % len(behs))
+    return behs
+
+
+def seq_sig(b, what):
+    shape = "".join({"start": "s", "cancel": "c", "answer": "a"}[s[0]] + str(s[1]) for s in b["steps"])
+    return "seq:%s:%s" % (what, shape)
+
+
+def evaluate_seqs(ctx, behs, jobs, recs):
+    """several exchanges on one upstream: leg B (result kinds from the TLC schedule, own reply) + leg C"""
+    recs.sort(key=lambda r: r["id"])
+    good = [r for r in recs if not r.get("skipped") and not r.get("inconclusive")]
+    bad = [r for r in recs if r.get("skipped") or r.get("inconclusive")]
+    for r in good:
+        b = behs[jobs[r["id"]]["beh"]]
+        for xr in r.get("results") or []:
+            exp = b["result"][xr["x"] - 1]
+            ok = xr["kind"] == exp and (xr["kind"] != "tcp" or (xr["for"] == xr["x"] and xr["idok"]))
+            if not ok:
+                what = "result=%s-for-%s" % (xr["kind"], "own" if xr.get("for") == xr["x"] else "other")
+                ctx.violation(seq_sig(b, what),
+                              "exchange %d of schedule %s on one upstream: caller got %s (reply to query %s, id ok %s, err %s), "
+                              "the spec's schedule gives %s for its own query" % (
+                                  xr["x"], b["steps"], xr["kind"], xr.get("for"), xr["idok"], xr.get("err"), exp),
+                              {"seq": jobs[r["id"]], "beh": b, "observed": r})
+    distinct = {}
+    for r in good:
+        distinct.setdefault(json.dumps(r["events"], sort_keys=True), []).append(r)
+    keys = sorted(distinct)
+    before = ctx.cov["traces_validated_against_impl"]
+    acc, rej = vlib.validate_traces(ctx, "UdpFallbackSeq_Trace", "UdpFallbackSeq_Trace.cfg",
+                                    [json.loads(k) for k in keys], chunk=20000, max_reject=8)
+    badi = {i for i, _ in rej}
+    if len(badi) < 8:
+        ctx.cov["traces_validated_against_impl"] = before + sum(len(distinct[k]) for i, k in enumerate(keys) if i not in badi)
+    for idx, info in rej:
+        r = distinct[keys[idx]][0]
+        b = behs[jobs[r["id"]]["beh"]]
+        e = info.get("event") or {}
+        ctx.violation(seq_sig(b, "trace-%s" % e.get("ev")),
+                      "exchanges on one upstream: recorded run is not a behaviour of UdpFallbackSeq.tla in which every caller gets "
+                      "the reply to its own query (rejected at event %s: %s; schedule %s)" % (
+                          info.get("line_in_trace"), e, b["steps"]),
+                      {"seq": jobs[r["id"]], "beh": b, "observed": r})
+    return good, bad, keys
+
+
 def expectations(ctx):
     behs = vlib.tlc_behaviours(ctx, "UdpFallback", "UdpFallback_gen.cfg")
     exp = {}
@@ -131,8 +182,15 @@ def expectations(ctx):
 
 def replay(ctx):
     d = json.load(open(ctx.replay))["replay"]
-    exp = expectations(ctx)
     binary = vlib.go_build(ctx, "drv_udpfb")
+    if "seq" in d:
+        behs = [d["beh"]]
+        seqs = [{"id": i, "n": 3, "steps": d["beh"]["steps"], "beh": 0} for i in range(8)]
+        recs, _ = vlib.run_driver(ctx, binary, stdin_obj={"cases": [], "seqs": seqs, "workers": 4}, timeout=600)
+        ctx.cov["evaluations"] = len(recs)
+        evaluate_seqs(ctx, behs, seqs, recs)
+        return
+    exp = expectations(ctx)
     cases = []
     for i in range(5):
         c = dict(d["case"])
@@ -152,28 +210,55 @@ def run(ctx):
         "one exchange per freshly created upstream; UDP and TCP harness servers share one loopback address and port",
         "all header bits other than TC are abstracted to one boolean in the spec; concretely every 16-bit flag word "
         "(thorough) or TC x {none, all, each single bit, 100 random} (quick) is swept",
-        "when the TCP retry itself fails C17 does not say what the caller gets: an error or the truncated reply are admitted",
+        "TC => the caller gets the outcome of the TCP exchange: its reply or its error, never the truncated reply as a success",
+        "several exchanges on one upstream run one after the other (unique question each); a cancelled one is cancelled by the "
+        "harness after the TCP server has read its query; the TCP server answers late and in order per connection",
         "a UDP reply may be lost/dropped and the query resent (C02 concerns the loss, not C17)",
         "errors caused by the harness context ending (4 s) are retried and then counted as inconclusive, never as a verdict",
     ]
     vlib.tlc_mc(ctx, "UdpFallback", "UdpFallback_design.cfg", workers=1,
                 label="design: C17 invariants + termination, all reply classes x TCP behaviours")
-    for b in ("oth", "always", "never"):
+    for b in ("oth", "always", "never", "giveup_udp"):
         nv = vlib.run_tlc(ctx, "UdpFallback", "UdpFallback_pinned_%s.cfg" % b, expect_violation=True, workers=1)
         if nv["violated"] != "C17Inv":
             raise vlib.Infra("non-vacuity (%s): expected C17Inv to fail, got %r" % (b, nv["violated"]))
-    ctx.cov["non_vacuity"] = "C17Inv violated by TLC when the decision tests another bit / always / never falls back"
+    ctx.cov["non_vacuity"] = ("C17Inv violated by TLC when the decision tests another bit / always / never falls back / a failed "
+                              "TCP retry returns the truncated reply; C17SeqInv violated when a cancelled exchange idles its connection")
+    vlib.tlc_mc(ctx, "UdpFallbackSeq", "UdpFallbackSeq_design.cfg", workers=1,
+                label="design, 3 exchanges on one upstream: cancel after the TCP query, late in-order answers, connection pool")
+    nv = vlib.run_tlc(ctx, "UdpFallbackSeq", "UdpFallbackSeq_pinned_idle.cfg", expect_violation=True, workers=1)
+    if nv["violated"] != "C17SeqInv":
+        raise vlib.Infra("non-vacuity (IdleOnCancel): expected C17SeqInv to fail, got %r" % nv["violated"])
     exp = expectations(ctx)
 
     cases = build_cases(ctx, rng, T)
     log("running %d exchanges (%d distinct flag words)" % (len(cases), len({c["word"] for c in cases})))
     binary = vlib.go_build(ctx, "drv_udpfb")
-    recs, _ = vlib.run_driver(ctx, binary, stdin_obj={"cases": cases, "workers": 16}, timeout=1500)
-    if len(recs) != len(cases):
-        raise vlib.Infra("driver returned %d results for %d cases" % (len(recs), len(cases)))
-    good, skipped, inconcl = evaluate(ctx, exp, cases, recs)
+    behs = seq_schedules(ctx)
+    seqs = []
+    for rep in range(20 if T else 3):
+        for bi, b in enumerate(behs):
+            seqs.append({"id": len(seqs), "n": 3, "steps": b["steps"], "beh": bi})
+    log("and %d multi-exchange runs (%d schedules of UdpFallbackSeq.tla)" % (len(seqs), len(behs)))
+    recs, _ = vlib.run_driver(ctx, binary, stdin_obj={"cases": cases, "seqs": seqs, "workers": 16}, timeout=1500)
+    if len(recs) != len(cases) + len(seqs):
+        raise vlib.Infra("driver returned %d results for %d cases" % (len(recs), len(cases) + len(seqs)))
+    recs1 = [r for r in recs if not r.get("seq")]
+    recs2 = [r for r in recs if r.get("seq")]
+    good, skipped, inconcl = evaluate(ctx, exp, cases, recs1)
+    sgood, sbad, skeys = evaluate_seqs(ctx, behs, seqs, recs2)
+    if not ctx.violations and not ctx.known_hits and len(sbad) > max(3, len(seqs) // 20):
+        raise vlib.Infra("too many multi-exchange runs without a verdict: %d of %d (%s)" % (
+            len(sbad), len(seqs), sbad[0].get("inconclusive") or sbad[0].get("skipped")))
 
     if not ctx.violations:
+        sb = next(json.loads(k) for k in skeys if '"Cancel"' in k and k.count('"tcp"') >= 1)
+        s1 = copy.deepcopy(sb)
+        e = next(e for e in s1 if e["ev"] == "Result" and e["kind"] == "tcp")
+        e["for"] = e["x"] % 3 + 1
+        s2 = [e for e in copy.deepcopy(sb) if e["ev"] != "TcpReply"]
+        vlib.assert_rejects(ctx, "UdpFallbackSeq_Trace", "UdpFallbackSeq_Trace.cfg", [s1, s2],
+                            "Result.for changed to another exchange; TcpReply events removed")
         base = next(r["events"] for r in good if r["kind"] == "tcp")
         b1 = copy.deepcopy(base)
         for e in b1:
@@ -190,7 +275,9 @@ def run(ctx):
         vlib.assert_rejects(ctx, "UdpFallback_Trace", "UdpFallback_Trace.cfg", [b1, b2, b3, b4],
                             "Result tcp->udp; TcpAccept removed; TcpQuery.same=false; TcpAccept inserted into a non-TC exchange")
 
-    ctx.cov["evaluations"] = len(good)
+    ctx.cov["evaluations"] = len(good) + len(sgood)
+    ctx.cov["multi_exchange_runs"] = len(sgood)
+    ctx.cov["multi_exchange_schedules"] = len(behs)
     ctx.cov["distinct_nontrivial"] = len({(c["mode"], c["word"]) for c in (cases[r["id"]] for r in good)
                                           if c["word"] & 0x0200})
     ctx.cov["flag_words"] = len({cases[r["id"]]["word"] for r in good})
